@@ -73,6 +73,116 @@ def import_invalid() -> list[dict]:
     ]
 
 
+def insertion_points(ss: list, in_case: bool, in_loop: bool, out: list) -> None:
+    """every statement list of a routine body with its context (inside a switch case / inside a loop)"""
+    out.append((ss, in_case, in_loop))
+    for st in ss:
+        k = st[0]
+        if k == "if":
+            insertion_points(st[3], in_case, in_loop, out)
+            for e in st[4]:
+                insertion_points(e[2], in_case, in_loop, out)
+            if st[5]:
+                insertion_points(st[5][0], in_case, in_loop, out)
+        elif k == "switch":
+            for c in st[2]:
+                insertion_points(c[-1], True, in_loop, out)
+        elif k == "forever":
+            insertion_points(st[1], in_case, True, out)
+        elif k == "while":
+            insertion_points(st[3], in_case, True, out)
+        elif k == "for":
+            insertion_points(st[4], in_case, True, out)
+
+
+def switches_of(ss: list, out: list) -> None:
+    for st in ss:
+        k = st[0]
+        if k == "switch":
+            out.append(st)
+            for c in st[2]:
+                switches_of(c[-1], out)
+        elif k == "if":
+            switches_of(st[3], out)
+            for e in st[4]:
+                switches_of(e[2], out)
+            if st[5]:
+                switches_of(st[5][0], out)
+        elif k == "forever":
+            switches_of(st[1], out)
+        elif k == "while":
+            switches_of(st[3], out)
+        elif k == "for":
+            switches_of(st[4], out)
+
+
+def injected_invalid(r: random.Random) -> tuple[str, str] | None:
+    """a random valid program with one statically meaningless construct put at a random place where it is meaningless"""
+    import copy
+    p = copy.deepcopy(Gen(r, Cfg(max_depth=3, max_block=3, max_routines=2, terminator_prob=0.5)).program())
+    bodies = [rt[6] for rt in p[2] if not rt[5]]
+    if not bodies:
+        return None
+    pts: list = []
+    sws: list = []
+    for b in bodies:
+        insertion_points(b, False, False, pts)
+        switches_of(b, sws)
+    cls = r.choice(["break-outside-case", "continue-outside-loop", "break_loop-outside-loop", "jump-undefined-label",
+                    "call-undefined-label", "two-defaults", "switch-ends-in-empty-case"])
+    if cls in ("two-defaults", "switch-ends-in-empty-case"):
+        if not sws:
+            return None
+        sw = r.choice(sws)
+        if cls == "two-defaults":
+            sw[2] = [c for c in sw[2] if c[0] != "default"]
+            for _ in range(2):
+                sw[2].insert(r.randint(0, len(sw[2])), [A("default"), [[A("op"), None, "op_d", [A("i"), 1]], [A("ctrl"), A("break")]]])
+        else:
+            if not sw[2]:
+                return None
+            sw[2][-1][-1] = []
+        return cls, print_prog(p)
+    if cls == "break-outside-case":
+        cand = [x for x in pts if not x[1]]
+        st = [A("ctrl"), A("break")]
+    elif cls == "continue-outside-loop":
+        cand = [x for x in pts if not x[2]]
+        st = [A("ctrl"), A("continue")]
+    elif cls == "break_loop-outside-loop":
+        cand = [x for x in pts if not x[2]]
+        st = [A("ctrl"), A("break_loop")]
+    elif cls == "jump-undefined-label":
+        cand, st = pts, [A("jump"), "nowhere_at_all"]
+    else:
+        cand, st = pts, [A("call"), "nowhere_at_all"]
+    if not cand:
+        return None
+    ss = r.choice(cand)[0]
+    ss.insert(r.randint(0, len(ss)), st)
+    return cls, print_prog(p)
+
+
+def import_cycles(r: random.Random, n: int) -> list[dict]:
+    """main -> f1 -> .. -> fk -> fj: cycles of every length, entered at any depth, files in several directories"""
+    main = "def 0 {\n    a();\n    end;\n}\n"
+    out = []
+    for _ in range(n):
+        k = r.randint(1, 6)
+        j = r.randint(1, k)
+        dirs = [r.choice(["m", "m/sub", "lib"]) for _ in range(k + 1)]
+        dirs[0] = "m"
+        names = ["m/main.exps"] + [f"{dirs[i]}/f{i}.exps" for i in range(1, k + 1)]
+        files = {}
+        for i in range(k + 1):
+            nxt = names[i + 1] if i < k else names[j]
+            rel = os.path.relpath(nxt, os.path.dirname(names[i]))
+            imp = f'import "./{rel}";\n'
+            files[names[i]] = imp + (main if i == 0 else f"macro g{i}() {{\n    y({i});\n}}\n")
+        out.append({"cls": "cyclic-import", "files": files, "lps": [], "shape": f"chain {k} back to {j}"})
+    return out
+
+
 def degenerate() -> list[str]:
     return [
         "def 0 {\n    @x;\n}\n",
@@ -154,6 +264,13 @@ def main() -> None:
     inv = []
     for _ in range(3 if q else 20):
         inv += static_invalid_texts(r)
+    n_inj = 0
+    for i in range(400 if q else 6000):
+        x = injected_invalid(random.Random(f"C10-inject-{run.seed}-{i}"))
+        if x is not None:
+            inv.append(("injected:" + x[0], x[1]))
+            n_inj += 1
+    run.count("injected invalid programs", n_inj)
     res = run_impl([("compile", s) for _, s in inv])
     for (cls, s), o in zip(inv, res):
         run.case(["static", cls, s], nontrivial=True)
@@ -162,7 +279,7 @@ def main() -> None:
         elif o["err"] not in DOCUMENTED:
             run.fail("undocumented:" + cls + ":" + o["err"], f"statically meaningless program ({cls}) raises {o['err']}", {"source": s, "observed": o})
         run.count("static:" + ("rejected" if not o["ok"] else "ACCEPTED"))
-    imps = import_invalid()
+    imps = import_invalid() + import_cycles(r, 12 if q else 120)
     ires = run_impl([("files:compile_files", i["files"], "m/main.exps", i["lps"]) for i in imps])
     for i, o in zip(imps, ires):
         run.case(["import", i["cls"], i["files"]], nontrivial=True)
